@@ -203,8 +203,14 @@ func (c09) Exec(c *core.Case) (out *core.Outcome) {
 	mustOK(root.Do(s3c.PutVersioning(bkt, "Enabled")), "enable versioning")
 	suspended := false
 	everNull := len(p.PrePuts) > 0
+	everSuspended, everDelVer := false, false
 	ctxOf := func() string {
 		switch {
+		case everNull && !everSuspended && !everDelVer:
+			// the only null versions are objects written before versioning was enabled, the bucket was never
+			// suspended since and no version was deleted by id: a class of its own, so that the defects of
+			// suspension and of re-exposing a previous version do not cover it
+			return "null-version-from-before-versioning"
 		case everNull:
 			return "null-version-or-suspension-involved"
 		case c.Cfg.Sidecar:
@@ -286,6 +292,9 @@ func (c09) Exec(c *core.Case) (out *core.Outcome) {
 		if (suspended || hasNull(k)) && (op.Kind == "put" || op.Kind == "putrefused" || op.Kind == "copy" || op.Kind == "complete" || op.Kind == "delete") {
 			pause()
 		}
+		if op.Kind == "delver" {
+			everDelVer = true
+		}
 		switch op.Kind {
 		case "restart":
 			e.Restart(cl.GW)
@@ -293,6 +302,7 @@ func (c09) Exec(c *core.Case) (out *core.Outcome) {
 			if cl.Do(s3c.PutVersioning(bkt, "Suspended")).Resp.OK() {
 				suspended = true
 				everNull = true
+				everSuspended = true
 			}
 		case "enable":
 			if cl.Do(s3c.PutVersioning(bkt, "Enabled")).Resp.OK() {
